@@ -77,6 +77,7 @@ def check(run: Run) -> None:
     # ---------------------------------------------------------------- R18.1
     n_calls = 0
     deferred: list[tuple[FuncInfo, str]] = []  # functions whose parameter's .value is emitted unguarded: callers must guard
+    deferred_self: list[tuple[FuncInfo, str]] = []  # helpers that emit a parameter itself unguarded: callers must guard that argument
     for fi in em.functions.values():
         cfg = None
         for n in walk_no_nested(fi.node):
@@ -96,6 +97,11 @@ def check(run: Run) -> None:
                 if not ok and isinstance(arg, ast.Name) and arg.id in params and fi.name == "emit_value":
                     ok = True
                     why = "recursion on own parameter"
+                if not ok and n.func.id == "emit_value" and isinstance(arg, ast.Name) and arg.id in params and fi.name not in EMITTERS:
+                    # a helper that emits its own parameter: the filter is the callers' obligation
+                    deferred_self.append((fi, arg.id))
+                    ok = True
+                    why = f"emits its own parameter `{arg.id}`: every caller must filter (checked at the call sites)"
                 run.instance("R18.1", em.loc(n), f"{fi.qualname}: `{norm(n)}` - {why}", ok=ok)
                 if not ok:
                     run.violation("R18.1", em, fi.qualname, n, f"`{ast.unparse(probe)}` is emitted without an is_absent test that skips it: an Absent field would raise or be written out instead of being omitted")
@@ -115,6 +121,22 @@ def check(run: Run) -> None:
                     run.instance("R18.1", caller.module.loc(n), f"{caller.qualname}: caller of {fi.name} filters is_absent({ast.unparse(probe)})", ok=ok)
                     if not ok:
                         run.violation("R18.1", caller.module, caller.qualname, n, f"{fi.name}() is called on a node whose value was not tested with is_absent: an Absent field would not be omitted")
+
+    for fi, p in deferred_self:
+        params = [a.arg for a in fi.node.args.args]  # type: ignore[attr-defined]
+        idx = params.index(p)
+        for caller in em.functions.values():
+            cfg = None
+            for n in walk_no_nested(caller.node):
+                if isinstance(n, ast.Call) and isinstance(n.func, ast.Name) and n.func.id == fi.name and caller is not fi:
+                    a = n.args[idx] if idx < len(n.args) else next((k.value for k in n.keywords if k.arg == p), None)
+                    if a is None:
+                        continue
+                    cfg = cfg or CFG(caller.node)
+                    ok = _guarded_not_absent(cfg, cfg.node_for_stmt_containing(n), a)
+                    run.instance("R18.1", em.loc(n), f"{caller.qualname}: caller of {fi.name} filters is_absent({ast.unparse(a)})", ok=ok)
+                    if not ok:
+                        run.violation("R18.1", em, caller.qualname, n, f"{fi.name}() emits its argument `{ast.unparse(a)}` and is called here without an is_absent test that skips it: an Absent field would raise or be written out instead of being omitted")
 
     # ---------------------------------------------------------------- R18.2
     ev = em.func("emit_value")
@@ -380,24 +402,59 @@ def check_normalize(run: Run, rule: str) -> None:
 
 
 def check_quote_str_only(run: Run, rule: str) -> None:
-    """every site of the emitter that wraps a value text in double quotes is control-dependent on isinstance(<value>, str)"""
+    """every site of the emitter that wraps a value text in double quotes is control-dependent on isinstance(<value>, str);
+    when the wrapping lives in a helper (a function that returns '"' + f(param) + '"'), the obligation is checked at every
+    call of the helper instead"""
     em = run.project.mod("core.emitter")
     n_q = 0
+
+    def str_only(t, val) -> bool:
+        ops = t.values if isinstance(t, ast.BoolOp) and isinstance(t.op, ast.And) else [t]
+        return val is True and any(isinstance(o, ast.Call) and ast.unparse(o.func) == "isinstance" and len(o.args) == 2 and ast.unparse(o.args[1]) == "str" for o in ops)
+
+    def is_quote_fstring(n: ast.AST) -> bool:
+        return isinstance(n, ast.JoinedStr) and len(n.values) >= 2 and isinstance(n.values[0], ast.Constant) and n.values[0].value == '"' and isinstance(n.values[-1], ast.Constant) and n.values[-1].value == '"'
+
+    def guarded(fi, node) -> bool:
+        cfg = CFG(fi.node)
+        nodes = cfg.node_for_stmt_containing(node)
+        conds = [c for x in nodes for c in branch_conditions(cfg, x)]
+        if any(str_only(t, val) for t, val in conds):
+            return True
+        # `isinstance(x, str) and ...` earlier in the same boolean expression / conditional expression
+        cur = node
+        while cur is not None and not isinstance(cur, ast.stmt):
+            par = getattr(cur, "_parent", None)
+            if isinstance(par, ast.BoolOp) and isinstance(par.op, ast.And) and cur in par.values:
+                if any(isinstance(o, ast.Call) and ast.unparse(o.func) == "isinstance" and len(o.args) == 2 and ast.unparse(o.args[1]) == "str" for o in par.values[: par.values.index(cur)]):
+                    return True
+            cur = par
+        return False
+
+    # quoting helpers: the f-string is returned and its function has no isinstance(str) guard of its own
+    helpers: dict[str, object] = {}
     for fi in em.functions.values():
-        cfg = None
         for n in walk_no_nested(fi.node):
-            if isinstance(n, ast.JoinedStr) and len(n.values) >= 2 and isinstance(n.values[0], ast.Constant) and n.values[0].value == '"' and isinstance(n.values[-1], ast.Constant) and n.values[-1].value == '"':
+            if is_quote_fstring(n) and isinstance(getattr(n, "_parent", None), ast.Return) and not guarded(fi, n):
+                params = [a.arg for a in fi.node.args.args]  # type: ignore[attr-defined]
+                if params and "." not in fi.qualname:
+                    helpers[fi.qualname] = fi
+    for fi in em.functions.values():
+        for n in walk_no_nested(fi.node):
+            if is_quote_fstring(n) and fi.qualname not in helpers:
                 n_q += 1
-                cfg = cfg or CFG(fi.node)
-                nodes = cfg.node_for_stmt_containing(n)
-                conds = [c for x in nodes for c in branch_conditions(cfg, x)]
-                def str_only(t, val) -> bool:
-                    ops = t.values if isinstance(t, ast.BoolOp) and isinstance(t.op, ast.And) else [t]
-                    return val is True and any(isinstance(o, ast.Call) and ast.unparse(o.func) == "isinstance" and len(o.args) == 2 and ast.unparse(o.args[1]) == "str" for o in ops)
-                ok = any(str_only(t, val) for t, val in conds)
+                ok = guarded(fi, n)
                 run.instance(rule, em.loc(n), f"{fi.qualname}: the value is wrapped in quotes only under isinstance(<value>, str)", ok=ok)
                 if not ok:
                     run.violation(rule, em, fi.qualname, n, "a value is wrapped in quotes without having been tested to be a str: null / true / 3 would be written as the strings \"null\" / \"true\" / \"3\"")
-    if n_q < 3:
+            if isinstance(n, ast.Call) and isinstance(n.func, ast.Name) and n.func.id in helpers and fi.qualname not in helpers:
+                n_q += 1
+                ok = guarded(fi, n)
+                run.instance(rule, em.loc(n), f"{fi.qualname}: `{n.func.id}(...)` (quotes its argument) is called only under isinstance(<value>, str)", ok=ok)
+                if not ok:
+                    run.violation(rule, em, fi.qualname, n, f"`{n.func.id}` wraps its argument in quotes and is called here without the value having been tested to be a str: null / true / 3 would be written as the strings \"null\" / \"true\" / \"3\"")
+    for h in helpers:
+        run.instance(rule, em.loc(helpers[h].node), f"{h}: quoting helper - the str test is required at its call sites", nontrivial=False)  # type: ignore[attr-defined]
+    if n_q < 2:
         raise AnalysisError(f"emitter.py: only {n_q} quoting site(s) found")
 
